@@ -36,4 +36,85 @@ theorem price_ge (baseLen expLen modLen hb : Nat) (hx : 1 ≤ max modLen baseLen
   · rw [if_pos h] at h5; omega
   · omega
 
+/-- every size handed to `make` by the guarded `Run` is bounded by the gas charged -/
+theorem alloc_le_gas (baseLen expLen modLen dlen hb a : Nat)
+    (ha : a ∈ (run true baseLen expLen modLen dlen).allocs) :
+    a ≤ 20 * requiredGas baseLen expLen modLen dlen hb + 64 := by
+  unfold run at ha
+  simp only [] at ha
+  split at ha
+  · simp at ha
+  · rename_i hne
+    have hb1 : baseLen % u64 ≤ baseLen := Nat.mod_le _ _
+    have he1 : expLen % u64 ≤ expLen := Nat.mod_le _ _
+    have hm1 : modLen % u64 ≤ modLen := Nat.mod_le _ _
+    have hbu : baseLen % u64 < u64 := Nat.mod_lt _ (by decide)
+    have heu : expLen % u64 < u64 := Nat.mod_lt _ (by decide)
+    have hmu : modLen % u64 < u64 := Nat.mod_lt _ (by decide)
+    have hx : 1 ≤ max modLen baseLen := by
+      by_cases h1 : baseLen % u64 = 0
+      · by_cases h2 : modLen % u64 = 0
+        · exact absurd ⟨trivial, h1, h2⟩ hne
+        · have : 1 ≤ modLen := by omega
+          exact Nat.le_trans this (Nat.le_max_left _ _)
+      · have : 1 ≤ baseLen := by omega
+        exact Nat.le_trans this (Nat.le_max_right _ _)
+    have hxb : baseLen ≤ max modLen baseLen := Nat.le_max_right _ _
+    have hxm : modLen ≤ max modLen baseLen := Nat.le_max_left _ _
+    -- a is bounded by one of the three truncated lengths
+    have hsz : a ≤ baseLen % u64 ∨ a ≤ expLen % u64 ∨ a ≤ modLen % u64 := by
+      simp only [List.mem_cons, List.not_mem_nil, or_false] at ha
+      rcases ha with h | h | h | h
+      · exact .inl (h ▸ padAlloc_le _ _)
+      · exact .inr (.inl (h ▸ padAlloc_le _ _))
+      · exact .inr (.inr (h ▸ padAlloc_le _ _))
+      · exact .inr (.inr (h ▸ padAlloc_le _ _))
+    unfold requiredGas
+    simp only []
+    generalize (if dlen ≤ baseLen then 0 else hb) = hb'
+    obtain ⟨hp1, hp2⟩ := price_ge baseLen expLen modLen hb' hx
+    generalize mult (max modLen baseLen) * max (adjExpLen expLen hb') 1 = P at hp1 hp2 ⊢
+    split
+    · -- capped at MaxUint64: every truncated length is below 2^64
+      unfold u64 at *
+      omega
+    · omega
+
+/-- …and under an affordable price no `getData` slice expression wraps around -/
+theorem no_wrap_of_gas (baseLen expLen modLen dlen hb G : Nat)
+    (hG : requiredGas baseLen expLen modLen dlen hb ≤ G) (hsmall : 40 * G + 200 + dlen < u64) :
+    (run true baseLen expLen modLen dlen).slicePanic = false := by
+  unfold run
+  simp only []
+  split
+  · rfl
+  · rename_i hne
+    have hb1 : baseLen % u64 ≤ baseLen := Nat.mod_le _ _
+    have he1 : expLen % u64 ≤ expLen := Nat.mod_le _ _
+    have hm1 : modLen % u64 ≤ modLen := Nat.mod_le _ _
+    have hx : 1 ≤ max modLen baseLen := by
+      by_cases h1 : baseLen % u64 = 0
+      · by_cases h2 : modLen % u64 = 0
+        · exact absurd ⟨trivial, h1, h2⟩ hne
+        · have : 1 ≤ modLen := by omega
+          exact Nat.le_trans this (Nat.le_max_left _ _)
+      · have : 1 ≤ baseLen := by omega
+        exact Nat.le_trans this (Nat.le_max_right _ _)
+    have hxb : baseLen ≤ max modLen baseLen := Nat.le_max_right _ _
+    have hxm : modLen ≤ max modLen baseLen := Nat.le_max_left _ _
+    unfold requiredGas at hG
+    simp only [] at hG
+    generalize (if dlen ≤ baseLen then 0 else hb) = hb' at hG
+    obtain ⟨hp1, hp2⟩ := price_ge baseLen expLen modLen hb' hx
+    generalize mult (max modLen baseLen) * max (adjExpLen expLen hb') 1 = P at hp1 hp2 hG
+    have hP : P ≤ 20 * G + 19 := by
+      split at hG
+      · unfold u64 at *; omega
+      · omega
+    have hmin1 : min 0 dlen ≤ dlen := Nat.min_le_right _ _
+    have hmin2 : min (baseLen % u64) dlen ≤ dlen := Nat.min_le_right _ _
+    have hmin3 : min ((baseLen % u64 + expLen % u64) % u64) dlen ≤ dlen := Nat.min_le_right _ _
+    simp only [wraps, Bool.or_eq_false_iff, decide_eq_false_iff_not, Nat.not_le]
+    refine ⟨⟨?_, ?_⟩, ?_⟩ <;> omega
+
 end LemoProofs.EvmModExp
